@@ -14,7 +14,7 @@ import (
 
 func init() {
 	Registry["C07"] = Set{
-		Explanation: "Decides structural clauses of request/response correlation: Q1 every synchronous request mints a fresh reference with MakeRef and the same reference value is given to the routed request and to the wait; Q2 in the wait, the payload of a received response is used only on the edge where its reference equals the awaited one, and the mismatch edge goes back to the receive (late replies are dropped, the wait continues); the wait is bracketed by the Running<->WaitResponse transitions; Q3 every reply site in the behaviour loops and in the meta handler passes the From and the Ref of the very mailbox message whose handler produced the result; Q4 RouteSendResponse / RouteSendResponseError hand the reply over with a non-blocking send carrying the caller's reference and report ErrResponseIgnored on the default arm; Q5 the response channel is received from only in the wait function and sent to only in those two functions. Uniqueness of references is C06.G2. Added while probing: Q6 the pool dispatcher hands a request to one worker only (no Forward reachable after a successful hand-over). Q7 pooled objects across calls — when a function may release a pooled mailbox message it received as a parameter (directly, through a callee resolved statically or by the VTA call graph, or deferred), no caller releases or re-dispatches the same object on a path compatible with the callee's releasing path; paths are correlated through the nil-ness of the callee's error result (a double release hands one object to two later users: frames of unrelated connections overwrite each other, a request is presented twice or answered with another request's reference). Q8 a reply never crosses incarnations: the response frames carry only numeric ids and the reader rebuilds pid and reference with its own creation, so each response writer refuses a target whose creation is not the peer's (the C14.X2 ownership rule restricted to the response frames).",
+		Explanation: "Decides structural clauses of request/response correlation: Q1 every synchronous request mints a fresh reference with MakeRef and the same reference value is given to the routed request and to the wait; Q2 in the wait, the payload of a received response is used only on the edge where its reference equals the awaited one, and the mismatch edge goes back to the receive (late replies are dropped, the wait continues); the wait is bracketed by the Running<->WaitResponse transitions; Q3 every reply site in the behaviour loops and in the meta handler passes the From and the Ref of the very mailbox message whose handler produced the result; Q4 RouteSendResponse / RouteSendResponseError hand the reply over with a non-blocking send carrying the caller's reference and report ErrResponseIgnored on the default arm; Q5 the response channel is received from only in the wait function and sent to only in those two functions. Uniqueness of references is C06.G2. Added while probing: Q6 the pool dispatcher hands a request to one worker only (no Forward reachable after a successful hand-over). Q7 pooled objects across calls — when a function may release a pooled mailbox message it received as a parameter (directly, through a callee resolved statically or by the VTA call graph, or deferred), no caller releases or re-dispatches the same object on a path compatible with the callee's releasing path; paths are correlated through the nil-ness of the callee's error result (a double release hands one object to two later users: frames of unrelated connections overwrite each other, a request is presented twice or answered with another request's reference). Q8 a reply never crosses incarnations: the response frames carry only numeric ids and the reader rebuilds pid and reference with its own creation, so each response writer refuses a target whose creation is not the peer's (the C14.X2 ownership rule restricted to the response frames). Q9 in every behaviour loop and in the meta handler no HandleCall* callback is reachable from another one without a mailbox Pop in between: (nil, nil) means the callback answers later, so a fall-through to a second callback presents an asynchronously answered request twice and sends a second reply.",
 		NotDecided: []string{
 			"at-most-once presentation of a request to the callee (consumer side of the mailbox)",
 			"remote correlation framing (C12 R1/R4)",
@@ -45,6 +45,7 @@ func runC07(p *load.Program, r *core.Report) {
 			r.Unk(rule, "C07.Q8|layouts", "", "", "frame writers and handler resolve", "not found")
 		}
 	}
+	c07OneHandlerPerRequest(p, r)
 	pooledRelease(p, r, "C07.Q7 mailbox-message-not-released-twice", "C07.Q7", 0, "mailbox message", func(*ssa.Function) bool { return true })
 	a, problems := getAnchors(p)
 	for _, pr := range problems {
